@@ -449,6 +449,12 @@ func genC10(r *Rng, idx int, tier string) *Scenario {
 	for i := 0; i < nobj; i++ {
 		keyLens[i] = encrSizes[(idx+i)%3]
 		keys[i] = r.Bytes(keyLens[i])
+		if r.Chance(1, 12) { // keys with structure
+			b := Pick[uint8](r, 0x00, 0xff, 0x01, 0x80, r.U8())
+			for j := range keys[i] {
+				keys[i][j] = b
+			}
+		}
 		if i > 0 {
 			switch r.Intn(3) {
 			case 0: // a second object holding the same key
@@ -465,6 +471,9 @@ func genC10(r *Rng, idx int, tier string) *Scenario {
 	}
 	hist := Pick(r, 4, 8, 16, 32, 64)
 	maxPt := Pick(r, 16, 64, 300, 4096)
+	if tier == "thorough" && idx%20011 == 7 {
+		hist, maxPt = 70000, 16 // one object used more than 2^16 times
+	}
 	nct := 0
 	var prevRand *RandScript
 	var prevData Hex
@@ -477,7 +486,7 @@ func genC10(r *Rng, idx int, tier string) *Scenario {
 			st := Step{Op: "enc", Cipher: o, Ref: nct}
 			n := r.SmallLen(maxPt)
 			if r.Chance(1, 4) {
-				n = Pick(r, 0, 1, 15, 16, 17, 31, 32, 33, 4096)
+				n = Pick(r, 0, 1, 15, 16, 17, 31, 32, 33, 255, 256, 257, 4079, 4080, 4081, 4095, 4096)
 				if n > maxPt {
 					n = maxPt
 				}
